@@ -655,6 +655,15 @@ class Inliner:
         """`for a, b in (("x", x), ("y", y)): BODY`  ->  a, b = "x", x; BODY; a, b = "y", y; BODY
         for a loop over a short literal sequence whose body neither breaks nor continues and that contains a call of a new
         helper (only then is the unrolled form of any use: the helper's guards get to see the individual elements)."""
+        if isinstance(st, ast.For) and isinstance(st.iter, ast.Name) and st.iter.id not in f.params:
+            # the literal sequence held in a local that is bound once and only read by this loop
+            occ = [n for n in _own_nodes(f.node) if isinstance(n, ast.Name) and n.id == st.iter.id]
+            stores = [n for n in occ if isinstance(n.ctx, ast.Store)]
+            if len(stores) == 1 and len(occ) == 2:
+                for n in _own_nodes(f.node):
+                    if isinstance(n, ast.Assign) and len(n.targets) == 1 and n.targets[0] is stores[0] and isinstance(n.value, (ast.Tuple, ast.List)):
+                        st = copy.copy(st)
+                        st.iter = n.value
         if not isinstance(st, ast.For) or st.orelse or not isinstance(st.iter, (ast.Tuple, ast.List)) or not (1 <= len(st.iter.elts) <= 12):
             return None
         if any(isinstance(e, ast.Starred) for e in st.iter.elts):
@@ -1056,6 +1065,215 @@ class Inliner:
         walk(fn.body)
         return changed
 
+    def _tuple_arity(self, f: FunctionInfo, call: ast.Call) -> Optional[int]:
+        """n when `call` is a call of a package function (or method on self) whose every return is an n-tuple display"""
+        g = None
+        if isinstance(call.func, ast.Name):
+            r = self.prog.resolve_name(f.module, call.func.id)
+            g = r if isinstance(r, FunctionInfo) and r.cls is None else None
+        elif isinstance(call.func, ast.Attribute) and isinstance(call.func.value, ast.Name) and f.cls is not None and f.params and call.func.value.id == f.params[0]:
+            g = self.prog.find_method(f.cls, call.func.attr)
+        if g is None or any(isinstance(x, (ast.Yield, ast.YieldFrom)) for x in _own_nodes(g.node)):
+            return None
+        rets = [x for x in _own_nodes(g.node) if isinstance(x, ast.Return)]
+        if not rets or _may_fall_through(list(g.node.body)):
+            return None
+        ns = {len(x.value.elts) if isinstance(x.value, ast.Tuple) and not any(isinstance(e, ast.Starred) for e in x.value.elts) else None for x in rets}
+        return ns.pop() if len(ns) == 1 and None not in ns else None
+
+    def numpy_idioms(self, f: FunctionInfo) -> bool:
+        """Exactly equivalent spellings read as the one the rules know: `X.T.flatten()` / `X.T.ravel()` (C order of the
+        transposed array, any number of dimensions) is `X.flatten("F")`; `list(itertools.repeat(x, n))` is `[x] * n`."""
+        changed = False
+        log, qn = self.log, f.qualname
+
+        class R(ast.NodeTransformer):
+            def visit_FunctionDef(self, n):
+                return n if n is not f.node else self.generic_visit(n)
+
+            visit_AsyncFunctionDef = visit_FunctionDef
+
+            def visit_Lambda(self, n):
+                return n
+
+            def visit_Call(self, n):
+                nonlocal changed
+                self.generic_visit(n)
+                fn = n.func
+                if isinstance(fn, ast.Attribute) and fn.attr in ("flatten", "ravel") and not n.args and not n.keywords and isinstance(fn.value, ast.Attribute) and fn.value.attr == "T":
+                    changed = True
+                    log.append(f"{qn}: `.T.{fn.attr}()` read as `.{fn.attr}('F')` at line {getattr(n, 'lineno', '?')}")
+                    new = ast.Call(func=ast.Attribute(value=fn.value.value, attr=fn.attr, ctx=ast.Load()), args=[ast.Constant(value="F")], keywords=[])
+                    return ast.fix_missing_locations(ast.copy_location(new, n))
+                if isinstance(fn, ast.Name) and fn.id == "list" and len(n.args) == 1 and not n.keywords and isinstance(n.args[0], ast.Call) and not n.args[0].keywords and len(n.args[0].args) == 2 \
+                        and ast.unparse(n.args[0].func) in ("itertools.repeat", "repeat") and "repeat" not in f.params:
+                    x, k = n.args[0].args
+                    changed = True
+                    log.append(f"{qn}: `list(itertools.repeat(x, n))` read as `[x] * n` at line {getattr(n, 'lineno', '?')}")
+                    new = ast.BinOp(left=ast.List(elts=[x], ctx=ast.Load()), op=ast.Mult(), right=k)
+                    return ast.fix_missing_locations(ast.copy_location(new, n))
+                return n
+
+        for st in f.node.body:
+            R().visit(st)
+        return changed
+
+    def concat_to_append(self, f: FunctionInfo) -> bool:
+        """final statement `return L + [e]` with L a fresh local list (bound once, never aliased)  ->  `L.append(e); return L`
+        (the list object dies with the call either way; the returned value is the same list of elements)"""
+        body = f.node.body
+        if not body or not isinstance(body[-1], ast.Return):
+            return False
+        v = body[-1].value
+        if not (isinstance(v, ast.BinOp) and isinstance(v.op, ast.Add) and isinstance(v.left, ast.Name) and isinstance(v.right, ast.List) and len(v.right.elts) == 1
+                and not isinstance(v.right.elts[0], ast.Starred)):
+            return False
+        L = v.left.id
+        if L in f.params:
+            return False
+        parents: Dict[int, ast.AST] = {}
+        for p_ in ast.walk(f.node):
+            for ch in ast.iter_child_nodes(p_):
+                parents[id(ch)] = p_
+        occ = [n for n in _own_nodes(f.node) if isinstance(n, ast.Name) and n.id == L]
+        stores = [n for n in occ if isinstance(n.ctx, ast.Store)]
+        if len(stores) != 1:
+            return False
+        d = parents.get(id(stores[0]))
+        val = d.value if isinstance(d, ast.Assign) and len(d.targets) == 1 and d.targets[0] is stores[0] else d.value if isinstance(d, ast.AnnAssign) and d.target is stores[0] else None
+        fresh = isinstance(val, (ast.List, ast.ListComp)) or (isinstance(val, ast.BinOp) and isinstance(val.op, ast.Mult) and (isinstance(val.left, ast.List) or isinstance(val.right, ast.List))) \
+            or (isinstance(val, ast.Call) and isinstance(val.func, ast.Name) and val.func.id == "list")
+        if not fresh or d not in body:
+            return False
+        for n in occ:
+            par = parents.get(id(n))
+            if isinstance(n.ctx, ast.Load) and isinstance(par, (ast.Assign, ast.AnnAssign, ast.Return, ast.Tuple, ast.List, ast.Dict, ast.keyword)) and n is not v.left:
+                return False  # another name / container may keep the list alive
+        app = ast.Expr(value=ast.Call(func=ast.Attribute(value=ast.Name(id=L, ctx=ast.Load()), attr="append", ctx=ast.Load()), args=[v.right.elts[0]], keywords=[]))
+        ret = ast.Return(value=ast.Name(id=L, ctx=ast.Load()))
+        for o in (app, ret):
+            ast.fix_missing_locations(ast.copy_location(o, body[-1]))
+        body[-1:] = [app, ret]
+        self.log.append(f"{f.qualname}: `return {L} + [..]` read as append-and-return at line {getattr(ret, 'lineno', '?')}")
+        return True
+
+    def merge_conditional_comprehensions(self, f: FunctionInfo) -> bool:
+        """`if C: x = [A for v in S]` / `else: x = [B for w in S]` (also the two-return form) with a loop-invariant, effect-free
+        test C (a name or attribute)  ->  `x = [A if C else B for v in S]`"""
+        changed = False
+
+        def simple_comp(e):
+            return isinstance(e, ast.ListComp) and len(e.generators) == 1 and not e.generators[0].ifs and not e.generators[0].is_async and isinstance(e.generators[0].target, ast.Name)
+
+        def invariant(test, comps):
+            if not all(isinstance(n, (ast.Name, ast.Attribute, ast.Load, ast.UnaryOp, ast.Not)) for n in ast.walk(test)):
+                return False
+            tn = {n.id for n in ast.walk(test) if isinstance(n, ast.Name)}
+            return not any(c.generators[0].target.id in tn for c in comps)
+
+        def merged(test, a, b):
+            if not (simple_comp(a) and simple_comp(b) and ast.dump(a.generators[0].iter) == ast.dump(b.generators[0].iter) and invariant(test, (a, b))):
+                return None
+            va, vb = a.generators[0].target.id, b.generators[0].target.id
+            eb = _Rename({vb: ast.Name(id=va, ctx=ast.Load())}).visit(copy.deepcopy(b.elt)) if va != vb else copy.deepcopy(b.elt)
+            if va != vb and any(isinstance(n, ast.Name) and n.id == va for n in ast.walk(b.elt)):
+                return None
+            new = ast.ListComp(elt=ast.IfExp(test=copy.deepcopy(test), body=copy.deepcopy(a.elt), orelse=eb), generators=[copy.deepcopy(a.generators[0])])
+            return new
+
+        def walk(stmts: List[ast.stmt]) -> None:
+            nonlocal changed
+            i = 0
+            while i < len(stmts):
+                st = stmts[i]
+                if isinstance(st, ast.If):
+                    # assignment form
+                    if len(st.body) == 1 and len(st.orelse) == 1 and all(isinstance(x, ast.Assign) and len(x.targets) == 1 and isinstance(x.targets[0], ast.Name) for x in (st.body[0], st.orelse[0])) \
+                            and st.body[0].targets[0].id == st.orelse[0].targets[0].id:
+                        m = merged(st.test, st.body[0].value, st.orelse[0].value)
+                        if m is not None:
+                            new = ast.Assign(targets=[ast.Name(id=st.body[0].targets[0].id, ctx=ast.Store())], value=m)
+                            stmts[i] = ast.fix_missing_locations(ast.copy_location(new, st))
+                            changed = True
+                            self.log.append(f"{f.qualname}: conditional between two comprehensions over the same sequence moved into the element at line {getattr(st, 'lineno', '?')}")
+                            continue
+                    # return form: if C: return [..]   (else:) return [..]
+                    nxt = stmts[i + 1] if i + 1 < len(stmts) else None
+                    other = st.orelse[0] if len(st.orelse) == 1 else nxt if not st.orelse else None
+                    if len(st.body) == 1 and isinstance(st.body[0], ast.Return) and isinstance(other, ast.Return) and st.body[0].value is not None and other.value is not None:
+                        m = merged(st.test, st.body[0].value, other.value)
+                        if m is not None:
+                            new = ast.fix_missing_locations(ast.copy_location(ast.Return(value=m), st))
+                            if st.orelse:
+                                stmts[i] = new
+                            else:
+                                stmts[i:i + 2] = [new]
+                            changed = True
+                            self.log.append(f"{f.qualname}: conditional between two returned comprehensions over the same sequence moved into the element at line {getattr(st, 'lineno', '?')}")
+                            continue
+                for fld in ("body", "orelse", "finalbody"):
+                    sub = getattr(st, fld, None)
+                    if isinstance(sub, list) and sub and isinstance(sub[0], ast.stmt) and not isinstance(st, (ast.FunctionDef, ast.AsyncFunctionDef, ast.ClassDef)):
+                        walk(sub)
+                for h in getattr(st, "handlers", []) or []:
+                    walk(h.body)
+                i += 1
+
+        walk(f.node.body)
+        return changed
+
+    def result_components(self, f: FunctionInfo) -> bool:
+        """`x = g(..)` with g returning n-tuples and x used only as `x[<constant>]`  ->  `x__0, .., x__n-1 = g(..)` and `x__k`"""
+        fn = f.node
+        parents: Dict[int, ast.AST] = {}
+        for p_ in ast.walk(fn):
+            for ch in ast.iter_child_nodes(p_):
+                parents[id(ch)] = p_
+        by_name: Dict[str, List[ast.Name]] = {}
+        for n in _own_nodes(fn):
+            if isinstance(n, ast.Name):
+                by_name.setdefault(n.id, []).append(n)
+        changed = False
+        for name, occ in sorted(by_name.items()):
+            if name in f.params or "__" in name and name.rsplit("__", 1)[1].isdigit():
+                continue
+            stores = [n for n in occ if isinstance(n.ctx, ast.Store)]
+            if len(stores) != 1:
+                continue
+            d = parents.get(id(stores[0]))
+            if not (isinstance(d, ast.Assign) and len(d.targets) == 1 and d.targets[0] is stores[0] and isinstance(d.value, ast.Call)):
+                continue
+            k = self._tuple_arity(f, d.value)
+            if k is None:
+                continue
+            uses = [n for n in occ if isinstance(n.ctx, ast.Load)]
+            subs = []
+            for u in uses:
+                par = parents.get(id(u))
+                if isinstance(par, ast.Subscript) and par.value is u and isinstance(par.ctx, ast.Load) and isinstance(par.slice, ast.Constant) and isinstance(par.slice.value, int) \
+                        and not isinstance(par.slice.value, bool) and 0 <= par.slice.value < k:
+                    subs.append(par)
+                else:
+                    subs = None
+                    break
+            if not subs:
+                continue
+            ids = {id(x) for x in subs}
+
+            class R(ast.NodeTransformer):
+                def visit_Subscript(self, n):
+                    if id(n) in ids:
+                        return ast.copy_location(ast.Name(id=f"{name}__{n.slice.value}", ctx=ast.Load()), n)
+                    return self.generic_visit(n)
+
+            for st in fn.body:
+                R().visit(st)
+            d.targets = [ast.Tuple(elts=[ast.Name(id=f"{name}__{i}", ctx=ast.Store()) for i in range(k)], ctx=ast.Store())]
+            ast.fix_missing_locations(d)
+            changed = True
+            self.log.append(f"{f.qualname}: `{name}` (a {k}-tuple result used by component only) written as an unpacking assignment")
+        return changed
+
     def star_tuples(self, f: FunctionInfo) -> bool:
         """`g(a, *t)` where `t` is bound once, to the result of a package function whose every return is an n-tuple
         ->  `g(a, t[0], ..., t[n-1])`"""
@@ -1071,6 +1289,9 @@ class Inliner:
                 defs[n.targets[0].id] = n.value
 
         def arity(call: ast.Call) -> Optional[int]:
+            return self._tuple_arity(f, call)
+
+        def _unused(call: ast.Call) -> Optional[int]:
             g = None
             if isinstance(call.func, ast.Name):
                 r = self.prog.resolve_name(f.module, call.func.id)
@@ -1100,6 +1321,33 @@ class Inliner:
                     self.log.append(f"{f.qualname}: `*{a.value.id}` written out as its {k} elements at line {getattr(n, 'lineno', '?')}")
                 n.args = new_args
                 ast.fix_missing_locations(n)
+        # `helper(a, *x)` with x a name or a lookup `d[k]` and the helper taking exactly n more required positional
+        # parameters: any other length raises TypeError, so the call is `helper(a, x[0], .., x[n-1])`
+        for n in list(_own_nodes(fn)):
+            if not (isinstance(n, ast.Call) and n.args and isinstance(n.args[-1], ast.Starred) and not any(isinstance(a, ast.Starred) for a in n.args[:-1]) and not n.keywords):
+                continue
+            sv = n.args[-1].value
+            pure = isinstance(sv, ast.Name) or (isinstance(sv, ast.Subscript) and isinstance(sv.value, ast.Name) and isinstance(sv.slice, (ast.Name, ast.Constant)))
+            if not pure:
+                continue
+            g = None
+            recv = False
+            if isinstance(n.func, ast.Name):
+                r = self.prog.resolve_name(f.module, n.func.id)
+                g = r if isinstance(r, FunctionInfo) and r.cls is None else None
+            elif isinstance(n.func, ast.Attribute) and isinstance(n.func.value, ast.Name) and f.cls is not None and f.params and n.func.value.id == f.params[0]:
+                g = self.prog.find_method(f.cls, n.func.attr)
+                recv = g is not None and not any(isinstance(d, ast.Name) and d.id == "staticmethod" for d in g.node.decorator_list)
+            if g is None or g.short in self.known or g.node.args.vararg is not None or g.node.args.defaults or g.node.args.kwonlyargs and any(d is None for d in g.node.args.kw_defaults):
+                continue
+            pos = [x.arg for x in g.node.args.posonlyargs + g.node.args.args][(1 if recv else 0):]
+            k = len(pos) - (len(n.args) - 1)
+            if k < 1 or k > 12:
+                continue
+            n.args = list(n.args[:-1]) + [ast.copy_location(ast.Subscript(value=copy.deepcopy(sv), slice=ast.Constant(value=i), ctx=ast.Load()), sv) for i in range(k)]
+            ast.fix_missing_locations(n)
+            changed = True
+            self.log.append(f"{f.qualname}: `*{ast.unparse(sv)[:30]}` written out as the {k} remaining positional arguments of {g.short} at line {getattr(n, 'lineno', '?')}")
         return changed
 
     def formats_to_fstrings(self, f: FunctionInfo) -> bool:
@@ -1403,6 +1651,9 @@ class Inliner:
         for f in funcs:
             self.sorts_to_sorted(f)
             self.consts_to_literals(f)
+            self.merge_conditional_comprehensions(f)
+            self.numpy_idioms(f)
+            self.concat_to_append(f)
         for _round in range(MAX_ROUNDS):
             changed = False
             for f in funcs:
@@ -1412,6 +1663,8 @@ class Inliner:
                 changed |= self.joins_to_fstrings(f)
                 changed |= self.loops_to_dictcomp(f)
                 changed |= self.star_tuples(f)
+                changed |= self.result_components(f)
+                changed |= self.merge_conditional_comprehensions(f)
                 changed |= self.formats_to_fstrings(f)
                 changed |= self.concats_to_fstrings(f)
                 changed |= self.consts_to_literals(f)
